@@ -1,0 +1,41 @@
+//go:build verif
+
+// Contracts checked by /verif/govc (comment-only file; adds no code).
+
+package crl
+
+//@ pure func keyOf(url string) string = hexOf(sha256Of(url))
+//@ pure func keyPath(c *FileCache, url string) string = joinPath(c.root, keyOf(url))
+
+//@ func (*FileCache).fileName
+//@ props C15 C14
+//@ ensures[C15.key] result == keyOf(url)
+
+// the key is 64 lower-case hex digits: a single path element, never a temporary-file name, injective in the URL
+//@ lemma[C15.key-shape] forall(u, string, len(keyOf(u)) == 64 && in_re(keyOf(u), "^[0-9a-f]*$"))
+//@ lemma[C15.key-single-element] forall(s, string, in_re(s, "^[0-9a-f]*$") && len(s) == 64 ==> !in_re(s, "[/\\\\.\\x00]") && s != "")
+//@ lemma[C15.key-injective] forall(a, string, forall(b, string, keyOf(a) == keyOf(b) ==> a == b))
+//@ lemma[C14.temp-not-key] forall(s, string, in_re(s, "^[0-9a-f]*$") ==> !hasprefix(s, "notation-"))
+
+//@ func checkExpiry
+//@ props C15
+//@ ensures[C15.fresh] (result == nil) == (!timeIsZero(nextUpdate) && !timeAfter(nowT(), nextUpdate))
+//@ ensures[C15.expired-is-miss] !timeIsZero(nextUpdate) && timeAfter(nowT(), nextUpdate) ==> result == corecrl.ErrCacheMiss
+
+//@ pure func stored(c *FileCache, url string) fileCacheContent = decFCC(fileData(keyPath(c, url)))
+
+//@ func (*FileCache).Get
+//@ props C15 C14
+//@ requires c != nil
+//@ at call os.ReadFile: assert[C15.read-key,C14.single-read] arg0 == keyPath(c, url)
+//@ ensures[C15.miss] readErr(keyPath(c, url)) != nil && errIs(readErr(keyPath(c, url)), fs.ErrNotExist) ==> result1 == corecrl.ErrCacheMiss
+//@ ensures[C15.no-bundle-on-error] result1 != nil ==> result == nil
+//@ ensures[C15.malformed] readErr(keyPath(c, url)) != nil || decFCCErr(fileData(keyPath(c, url))) != nil || crlErr(string(stored(c, url).BaseCRL)) != nil || (stored(c, url).DeltaCRL != nil && crlErr(string(stored(c, url).DeltaCRL)) != nil) ==> result1 != nil
+//@ ensures[C15.faithful] result1 == nil ==> result != nil && fresh(result) && result.BaseCRL != nil && string(result.BaseCRL.Raw) == string(stored(c, url).BaseCRL) && (stored(c, url).DeltaCRL == nil) == (result.DeltaCRL == nil) && (result.DeltaCRL != nil ==> string(result.DeltaCRL.Raw) == string(stored(c, url).DeltaCRL))
+//@ ensures[C15.fresh] result1 == nil ==> !timeIsZero(result.BaseCRL.NextUpdate) && !timeAfter(nowT(), result.BaseCRL.NextUpdate) && (result.DeltaCRL != nil ==> !timeIsZero(result.DeltaCRL.NextUpdate) && !timeAfter(nowT(), result.DeltaCRL.NextUpdate))
+
+//@ func (*FileCache).Set
+//@ props C15 C14
+//@ requires c != nil
+//@ at call file.WriteFile: assert[C15.write-key] arg0 == c.root && arg1 == keyPath(c, url) && string(arg2) == jsonEnc(box(content)) && content.BaseCRL == bundle.BaseCRL.Raw && (bundle.DeltaCRL == nil ==> content.DeltaCRL == nil) && (bundle.DeltaCRL != nil ==> content.DeltaCRL == bundle.DeltaCRL.Raw)
+//@ ensures[C15.nil-bundle] bundle == nil || bundle.BaseCRL == nil ==> result != nil
